@@ -22,21 +22,6 @@ set_option linter.unusedSimpArgs false
 namespace Pcore.Desc
 open Pcore.Lat
 
-/-- a Callable without a block type (what a block type itself is) -/
-structure CT0 where
-  params : Option (List Ty × Option Rng)
-  ret : Option Ty
-  deriving Repr, Inhabited
-
-/-- a block type: `Optional[Callable[…]]` (true) or `Callable[…]` -/
-abbrev Blk := Bool × CT0
-
-structure CT where
-  params : Option (List Ty × Option Rng)
-  ret : Option Ty
-  block : Option Blk
-  deriving Repr, Inhabited
-
 def CT.base (c : CT) : CT0 := ⟨c.params, c.ret⟩
 def paramTuple (p : List Ty × Option Rng) : Ty := .tuple p.1 p.2
 
@@ -132,6 +117,26 @@ def describeC (e : CT) (a : CAct) (p : Path) : CRes :=
   | .fault k => .fault k
   | .ok [] => .ok [.topTm p e a]
   | .ok ds => .ok ds
+
+/-- the mismatches of a Callable description as the describer's own mismatch structs (Callable payloads as `Atom.callable`) -/
+def CM.toMismatch : CM → Mismatch
+  | .param m => m
+  | .missingRequiredBlock p => .missingRequiredBlock p
+  | .blockTm p e a => .typeMismatchC p (.atom (.callable e.1 ⟨e.2.params, e.2.ret, none⟩)) (a.1, ⟨a.2.params, a.2.ret, none⟩)
+  | .returnTm p e a => .typeMismatch p (.ofTy e) a
+  | .topTm p e (.callable c) => .typeMismatchC p (.atom (.callable false e)) (false, c)
+  | .topTm p e (.ty t) => .typeMismatch p (.atom (.callable false e)) t
+
+/-- `describe(eBlock, aBlock.Signature(), path)` of describeSignatureBlock: the block type of a signature (Callable or
+    Optional[Callable]: describeOptionalType hands the contained Callable to describeCallableType) against the signature of the
+    block that was given -/
+def describeBlk (eb : Blk) (ab : CT) (p : Path) : Res :=
+  let ec : CT := ⟨eb.2.params, eb.2.ret, none⟩
+  if asgC cfg sfh ec ab then .ok [] else
+  match describeCallableType cfg sfh ec (.callable ab) p with
+  | .fault k => .fault k
+  | .ok [] => .ok [.typeMismatchC p (.atom (.callable eb.1 ec)) (false, ab)]
+  | .ok ds => .ok (ds.map CM.toMismatch)
 
 end
 end Pcore.Desc
